@@ -113,7 +113,8 @@ def validate(spec_dir, module, trace_file, dev, timeout=900, constants=""):
     cfg = "SPECIFICATION Spec\nCONSTANT Dev = %s\n%s\nPOSTCONDITION AllConsumed\nCHECK_DEADLOCK FALSE\n" % (devset, constants)
     r = tlc(spec_dir, module, cfg, env={"TRACE_FILE": trace_file}, workers=1, timeout=timeout)
     if not r["ok"]:
-        raise Inconclusive("trace validation did not complete (%s):\n%s" % (module, r["out"][-3000:]))
+        i = r["out"].find("Error:")
+        raise Inconclusive("trace validation did not complete (%s):\n%s\n...\n%s" % (module, r["out"][max(i, 0):max(i, 0) + 1500], r["out"][-1500:]))
     rej = [(x[1], x[2], x[3]) for x in prints(r["out"], "REJECT")]
     dv = [(x[1], x[2], x[3]) for x in prints(r["out"], "DEV")]
     return rej, dv, n
@@ -160,6 +161,10 @@ class Result:
         kf = known_devs(self.prop)
         for dev, n in sorted(self.known.items()):
             print("KNOWN-FINDING: property=%s %s [%s; seen in %d traces this run]" % (self.prop, kf[dev]["what"], dev, n))
+        for dev, fd in sorted(kf.items()):
+            # schedule-dependent findings (admitted by a narrowly guarded alternative of the monitor) that did not occur in this run
+            if dev not in self.known and not fd.get("pinned"):
+                print("KNOWN-FINDING: property=%s %s [%s; listed, schedule-dependent, not observed in this run]" % (self.prop, fd["what"], dev))
         rc = 0
         for i, (what, replay) in enumerate(self.violations[:20]):
             path = os.path.join(VERIF, "evidence", "replay", self.prop, "violation_%d.json" % i)
